@@ -244,11 +244,15 @@ impl AlternateTime {
             + i64::from(self.std.ut_offset)
             - i64::from(self.dst.ut_offset);
 
+        // Whether DST starts before it ends within this year, decided on the instants of the two
+        // transitions (the start is given in standard time, the end in daylight saving time).
+        let dst_starts_first = dst_start_transition_start - i64::from(self.std.ut_offset)
+            < dst_end_transition_start - i64::from(self.dst.ut_offset);
+
         match self.std.ut_offset.cmp(&self.dst.ut_offset) {
             Ordering::Equal => Ok(crate::MappedLocalTime::Single(self.std)),
             Ordering::Less => {
-                if self.dst_start.transition_date(current_year)
-                    < self.dst_end.transition_date(current_year)
+                if dst_starts_first
                 {
                     // northern hemisphere
                     // For the DST END transition, the `start` happens at a later timestamp than the `end`.
@@ -292,8 +296,7 @@ impl AlternateTime {
                 }
             }
             Ordering::Greater => {
-                if self.dst_start.transition_date(current_year)
-                    < self.dst_end.transition_date(current_year)
+                if dst_starts_first
                 {
                     // southern hemisphere reverse DST
                     // For the DST END transition, the `start` happens at a later timestamp than the `end`.
